@@ -786,8 +786,12 @@ func (s *signGen) scenario() {
 				return
 			}
 		}
-	case k < 18 && len(conf) > 0: // index beyond the outputs of a known transaction
-		c := conf[s.r.Intn(len(conf))]
+	case k < 18 && len(all) > 0: // index beyond the outputs of a known (mined or pending) transaction
+		c := all[s.r.Intn(len(all))]
+		if len(pend) > 0 && s.r.Intn(2) == 0 {
+			c = pend[s.r.Intn(len(pend))]
+			s.g.Stats["sign-bad-index-pending"]++
+		}
 		idx := 7 + s.r.Intn(90)
 		if d, ok := l.defined[c.tx]; ok && s.r.Intn(2) == 0 {
 			idx = len(d.outs) // the first index that does not exist
